@@ -1,0 +1,247 @@
+//! Verification hooks, compiled only with the cargo feature `verif-trace`.
+//!
+//! Nothing in here changes what the library computes: it records what happened so that an
+//! external checker can validate the run against a specification.
+//!
+//! * a thread-local recorder of stage events (one JSON object per event),
+//! * thread-local work counters for the greedy merge / enclose passes,
+//! * a process-wide log of lazy-table initialisations (begin / end, with the thread that ran
+//!   them and a process-wide sequence number taken under the log's own lock).
+use crate::{
+    buffer::{Cell, Contacts, Fragment, FragmentSpan, Span},
+    Point,
+};
+use std::{
+    cell::{Cell as StdCell, RefCell},
+    sync::{
+        atomic::{AtomicU64, Ordering},
+        Mutex,
+    },
+};
+
+thread_local! {
+    static EVENTS: RefCell<Option<Vec<String>>> = RefCell::new(None);
+    static MERGE_ATTEMPTS: StdCell<u64> = StdCell::new(0);
+    static MERGE_PASSES: StdCell<u64> = StdCell::new(0);
+    static MERGE_GROWTH: StdCell<u64> = StdCell::new(0);
+    static ENCLOSE_ATTEMPTS: StdCell<u64> = StdCell::new(0);
+    static ENCLOSE_PASSES: StdCell<u64> = StdCell::new(0);
+    static THREAD_TAG: StdCell<u64> = StdCell::new(0);
+}
+
+static LAZY_LOG: Mutex<Vec<String>> = Mutex::new(Vec::new());
+static LAZY_SEQ: AtomicU64 = AtomicU64::new(0);
+
+/// start recording stage events on this thread (drops what was recorded before)
+pub fn start() {
+    EVENTS.with(|e| *e.borrow_mut() = Some(vec![]));
+    reset_counters();
+}
+
+/// stop recording and return the events recorded on this thread since `start`
+pub fn take() -> Vec<String> {
+    EVENTS.with(|e| e.borrow_mut().take().unwrap_or_default())
+}
+
+pub fn is_recording() -> bool {
+    EVENTS.with(|e| e.borrow().is_some())
+}
+
+/// record one event; `body` is only evaluated while recording
+pub fn emit(stage: &str, body: impl FnOnce() -> String) {
+    if is_recording() {
+        let line = format!("{{\"stage\":\"{}\",{}}}", stage, body());
+        EVENTS.with(|e| {
+            if let Some(events) = e.borrow_mut().as_mut() {
+                events.push(line);
+            }
+        });
+    }
+}
+
+pub fn reset_counters() {
+    MERGE_ATTEMPTS.with(|c| c.set(0));
+    MERGE_PASSES.with(|c| c.set(0));
+    MERGE_GROWTH.with(|c| c.set(0));
+    ENCLOSE_ATTEMPTS.with(|c| c.set(0));
+    ENCLOSE_PASSES.with(|c| c.set(0));
+}
+
+pub fn count_merge_attempt() {
+    MERGE_ATTEMPTS.with(|c| c.set(c.get() + 1));
+}
+
+/// one greedy pass went from `before` to `after` items
+pub fn count_merge_pass(before: usize, after: usize) {
+    MERGE_PASSES.with(|c| c.set(c.get() + 1));
+    if after > before {
+        MERGE_GROWTH.with(|c| c.set(c.get() + 1));
+    }
+}
+
+pub fn count_enclose_attempt() {
+    ENCLOSE_ATTEMPTS.with(|c| c.set(c.get() + 1));
+}
+
+pub fn count_enclose_pass(before: usize, after: usize) {
+    ENCLOSE_PASSES.with(|c| c.set(c.get() + 1));
+    if after > before {
+        MERGE_GROWTH.with(|c| c.set(c.get() + 1));
+    }
+}
+
+/// (merge attempts, merge passes, enclose attempts, enclose passes, passes that grew a list)
+pub fn counters() -> (u64, u64, u64, u64, u64) {
+    (
+        MERGE_ATTEMPTS.with(|c| c.get()),
+        MERGE_PASSES.with(|c| c.get()),
+        ENCLOSE_ATTEMPTS.with(|c| c.get()),
+        ENCLOSE_PASSES.with(|c| c.get()),
+        MERGE_GROWTH.with(|c| c.get()),
+    )
+}
+
+/// give the current thread a tag that shows up in the lazy-table log
+pub fn set_thread_tag(tag: u64) {
+    THREAD_TAG.with(|t| t.set(tag));
+}
+
+/// log the begin or the end of a lazy table initialiser
+pub fn lazy_event(table: &str, phase: &str) {
+    let tag = THREAD_TAG.with(|t| t.get());
+    let mut log = LAZY_LOG.lock().unwrap_or_else(|e| e.into_inner());
+    let seq = LAZY_SEQ.fetch_add(1, Ordering::SeqCst);
+    log.push(format!(
+        "{{\"table\":\"{}\",\"phase\":\"{}\",\"thread\":{},\"seq\":{}}}",
+        table, phase, tag, seq
+    ));
+}
+
+/// wrap a lazy initialiser with begin / end events
+pub fn lazy_init<T>(table: &str, init: impl FnOnce() -> T) -> T {
+    lazy_event(table, "begin");
+    let value = init();
+    lazy_event(table, "end");
+    value
+}
+
+/// a copy of the process-wide lazy-table log
+pub fn lazy_log() -> Vec<String> {
+    LAZY_LOG.lock().unwrap_or_else(|e| e.into_inner()).clone()
+}
+
+// ---------------------------------------------------------------------------------------
+// JSON helpers (the crate has no serde dependency)
+
+pub fn json_f32(v: f32) -> String {
+    if v.is_finite() {
+        format!("{}", v)
+    } else {
+        format!("\"{}\"", v)
+    }
+}
+
+pub fn json_point(p: Point) -> String {
+    format!("[{},{}]", json_f32(p.x), json_f32(p.y))
+}
+
+pub fn json_cell(c: Cell) -> String {
+    format!("[{},{}]", c.x, c.y)
+}
+
+pub fn json_chars(s: &str) -> String {
+    let cps: Vec<String> = s.chars().map(|ch| (ch as u32).to_string()).collect();
+    format!("[{}]", cps.join(","))
+}
+
+pub fn json_list<T>(items: impl IntoIterator<Item = T>, f: impl Fn(T) -> String) -> String {
+    let parts: Vec<String> = items.into_iter().map(f).collect();
+    format!("[{}]", parts.join(","))
+}
+
+pub fn json_span(span: &Span) -> String {
+    json_list(span.iter(), |(cell, ch)| {
+        format!("[{},{},{}]", cell.x, cell.y, *ch as u32)
+    })
+}
+
+pub fn json_fragment(fragment: &Fragment) -> String {
+    match fragment {
+        Fragment::Line(l) => format!(
+            "{{\"k\":\"line\",\"s\":{},\"e\":{},\"b\":{}}}",
+            json_point(l.start),
+            json_point(l.end),
+            l.is_broken as u8
+        ),
+        Fragment::MarkerLine(m) => format!(
+            "{{\"k\":\"mline\",\"s\":{},\"e\":{},\"b\":{},\"sm\":\"{}\",\"em\":\"{}\"}}",
+            json_point(m.line.start),
+            json_point(m.line.end),
+            m.line.is_broken as u8,
+            m.start_marker
+                .as_ref()
+                .map(|m| format!("{:?}", m))
+                .unwrap_or_default(),
+            m.end_marker
+                .as_ref()
+                .map(|m| format!("{:?}", m))
+                .unwrap_or_default(),
+        ),
+        Fragment::Circle(c) => format!(
+            "{{\"k\":\"circle\",\"c\":{},\"r\":{},\"f\":{}}}",
+            json_point(c.center),
+            json_f32(c.radius),
+            c.is_filled as u8
+        ),
+        Fragment::Arc(a) => format!(
+            "{{\"k\":\"arc\",\"s\":{},\"e\":{},\"r\":{},\"major\":{},\"sweep\":{}}}",
+            json_point(a.start),
+            json_point(a.end),
+            json_f32(a.radius),
+            a.major_flag as u8,
+            a.sweep_flag as u8
+        ),
+        Fragment::Polygon(p) => format!(
+            "{{\"k\":\"polygon\",\"pts\":{},\"f\":{},\"tags\":{}}}",
+            json_list(p.points.iter(), |pt| json_point(*pt)),
+            p.is_filled as u8,
+            json_list(p.tags.iter(), |t| format!("\"{:?}\"", t)),
+        ),
+        Fragment::Rect(r) => format!(
+            "{{\"k\":\"rect\",\"s\":{},\"e\":{},\"f\":{},\"r\":{},\"b\":{}}}",
+            json_point(r.start),
+            json_point(r.end),
+            r.is_filled as u8,
+            json_f32(r.radius.unwrap_or(0.0)),
+            r.is_broken as u8
+        ),
+        Fragment::CellText(t) => format!(
+            "{{\"k\":\"ctext\",\"c\":{},\"t\":{}}}",
+            json_cell(t.start),
+            json_chars(&t.content)
+        ),
+        Fragment::Text(t) => format!(
+            "{{\"k\":\"text\",\"s\":{},\"t\":{}}}",
+            json_point(t.start),
+            json_chars(&t.text)
+        ),
+    }
+}
+
+pub fn json_fragment_span(fs: &FragmentSpan) -> String {
+    format!(
+        "{{\"f\":{},\"cells\":{}}}",
+        json_fragment(&fs.fragment),
+        json_list(fs.span.iter(), |(cell, _)| json_cell(*cell))
+    )
+}
+
+pub fn json_fragment_spans<'a>(
+    items: impl IntoIterator<Item = &'a FragmentSpan>,
+) -> String {
+    json_list(items, json_fragment_span)
+}
+
+pub fn json_contacts(contacts: &Contacts) -> String {
+    json_fragment_spans(contacts.as_ref().iter())
+}
